@@ -58,5 +58,18 @@ Concrete(a) ==
 RECURSIVE Flat(_)
 Flat(h) == IF h = <<>> THEN <<>> ELSE Concrete(Head(h)) \o Flat(Tail(h))
 Steps(h) == InitSteps \o Flat(h)
+\* exhaustive short behaviours from later points of the life cycle (PrefixId 1: a countersignature exists; 2: it travelled inside the
+\* parent; 3: an abbreviated countersignature exists and is attached)
+CONSTANT PrefixId
+CsA == [op |-> "countersign", alg |-> "A", key |-> "k1", ext |-> "none", fault |-> "", form |-> "ptr"]
+Cs0A == [op |-> "countersign0", alg |-> "A", key |-> "k1", ext |-> "none", fault |-> "", form |-> "ptr"]
+Prefix == CASE PrefixId = 0 -> <<>> [] PrefixId = 1 -> <<CsA>>
+            [] PrefixId = 2 -> <<CsA, [op |-> "edit", what |-> "attach"], [op |-> "marshal"], [op |-> "unmarshal"]>>
+            [] PrefixId = 3 -> <<Cs0A, [op |-> "edit", what |-> "attach0"]>>
+RECURSIVE After(_, _, _, _, _)
+After(p, c, z, w, h) == IF h = <<>> THEN [par |-> p, cs |-> c, cs0 |-> z, wire |-> w] ELSE LET r == Step(p, c, z, w, Head(h)) IN After(r.par, r.cs, r.cs0, r.wire, Tail(h))
+GInit == LET s == After(InitPar, InitCs, NoCs, NoWire, Prefix) IN
+         par = s.par /\ cs = s.cs /\ cs0 = s.cs0 /\ wire = s.wire /\ last = [a |-> [op |-> "init"], res |-> "ok"] /\ hist = Prefix
+GSpec == GInit /\ [][Next]_vars
 Emit == Len(hist) < MaxHist \/ PrintT(<<"CASE", ToJson([acts |-> hist, steps |-> Steps(hist)])>>)
 =============================================================================
